@@ -155,6 +155,18 @@ def run(ctx):
         for args, kwargs, r, node in h.i1d:
             ctx.expect(not kwargs, 'AXIS', 'SED.interpolate interp1d options (%s)' % tag, loc(fs, node.lineno), 'scipy defaults', 'non-default options %s' % sorted(kwargs), 'interp1d-options')
 
+    check_variable(ctx)
+
+
+def check_variable(ctx):
+    repo = ctx.repo
+    U, mJy, au = sym('unit:U'), sym('unit:mJy'), sym('unit:au')
+    q, cap = sym('q', D), sym('cap', A)
+    scls = repo.cls('sed.sed', 'SED')
+
+    def mks():
+        return Obj(scls, {'_apertures': symarr('cap', (A,), unit=sym('unit:cm')), '_flux': symarr('flux', (A, N), unit=mJy), '_error': symarr('err', (A, N), unit=mJy),
+                          '_wav': symarr('wav', (N,), unit=sym('unit:micron')), '_nu': None})
     # ---------------- SED.interpolate_variable
     fv = ctx.fn(repo.func('sed.sed', 'SED.interpolate_variable'))
     h = H()
